@@ -47,6 +47,21 @@ func (ex *Exec) concStr(s StrV, why string) string {
 		if all {
 			return string(bs)
 		}
+	case symConcat:
+		if bs, ok := ex.asBytes(s); ok {
+			all := true
+			out := make([]byte, len(bs))
+			for i, b := range bs {
+				if !b.conc {
+					all = false
+					break
+				}
+				out[i] = byte(b.cv)
+			}
+			if all {
+				return string(out)
+			}
+		}
 	case symDec:
 		if s.sym.val.conc {
 			if s.sym.signed {
@@ -78,6 +93,15 @@ func (ex *Exec) strLen(s StrV) *Term {
 			return bvConst(64, uint64(len(s.sym.lowered.bytes)))
 		}
 		return decLen(s.sym.val, s.sym.signed)
+	case symConcat:
+		if s.sym.lowered != nil {
+			return bvConst(64, uint64(len(s.sym.lowered.bytes)))
+		}
+		r := bvConst(64, 0)
+		for _, p := range s.sym.parts {
+			r = bvAdd(r, ex.strLen(p))
+		}
+		return r
 	}
 	panic(unsupported{"len of opaque string"})
 }
@@ -110,6 +134,21 @@ func (ex *Exec) strEq(a, b StrV) *Term {
 	// a symbolic
 	if b.sym != nil && a.sym == b.sym {
 		return termTrue
+	}
+	if a.sym.kind == symConcat || (b.sym != nil && b.sym.kind == symConcat) {
+		ab, ok1 := ex.asBytes(a)
+		bb, ok2 := ex.asBytes(b)
+		if ok1 && ok2 {
+			if len(ab) != len(bb) {
+				return termFalse
+			}
+			r := termTrue
+			for i := range ab {
+				r = tAnd(r, tEq(ab[i], bb[i]))
+			}
+			return r
+		}
+		panic(unsupported{"string equality on a concatenation with unknown content"})
 	}
 	switch a.sym.kind {
 	case symUniverse:
@@ -190,20 +229,58 @@ func (ex *Exec) strConcat(a, b StrV) Value {
 	if b.sym == nil && b.s == "" {
 		return a
 	}
-	ab, ok1 := ex.asBytes(a)
-	bb, ok2 := ex.asBytes(b)
-	if ok1 && ok2 {
+	// a universe string joined with a concrete one is again a universe string over the same index variable
+	if a.sym != nil && a.sym.kind == symUniverse && b.sym == nil {
+		ns := newSymStr(symUniverse)
+		ns.idx, ns.name = a.sym.idx, a.sym.name
+		for _, x := range a.sym.strs {
+			ns.strs = append(ns.strs, x+b.s)
+		}
+		return StrV{sym: ns}
+	}
+	if b.sym != nil && b.sym.kind == symUniverse && a.sym == nil {
+		ns := newSymStr(symUniverse)
+		ns.idx, ns.name = b.sym.idx, b.sym.name
+		for _, x := range b.sym.strs {
+			ns.strs = append(ns.strs, a.s+x)
+		}
+		return StrV{sym: ns}
+	}
+	if a.sym != nil && a.sym.kind == symUniverse && b.sym != nil && b.sym.kind == symUniverse && a.sym.idx == b.sym.idx && len(a.sym.strs) == len(b.sym.strs) {
+		ns := newSymStr(symUniverse)
+		ns.idx, ns.name = a.sym.idx, a.sym.name
+		for i := range a.sym.strs {
+			ns.strs = append(ns.strs, a.sym.strs[i]+b.sym.strs[i])
+		}
+		return StrV{sym: ns}
+	}
+	if (a.sym != nil && a.sym.kind == symOpaque) || (b.sym != nil && b.sym.kind == symOpaque) {
+		return StrV{sym: newSymStr(symOpaque)} // content unknown
+	}
+	// both byte-level already (no forking needed): join now
+	if (a.sym == nil || a.sym.kind == symBytes) && (b.sym == nil || b.sym.kind == symBytes) {
+		ab, _ := ex.asBytes(a)
+		bb, _ := ex.asBytes(b)
 		ns := newSymStr(symBytes)
 		ns.bytes = append(append([]*Term{}, ab...), bb...)
 		return StrV{sym: ns}
 	}
-	if (a.sym != nil && a.sym.kind == symUniverse) || (b.sym != nil && b.sym.kind == symUniverse) {
-		if (a.sym == nil || a.sym.kind == symUniverse) && (b.sym == nil || b.sym.kind == symUniverse) {
-			return StrV{s: ex.concStr(a, "concat") + ex.concStr(b, "concat")}
+	// otherwise a rope: decimal renderings and universe strings stay symbolic until bytes are really needed
+	ns := newSymStr(symConcat)
+	add := func(x StrV) {
+		if x.sym != nil && x.sym.kind == symConcat {
+			ns.parts = append(ns.parts, x.sym.parts...)
+			return
 		}
+		if n := len(ns.parts); n > 0 && x.sym == nil && ns.parts[n-1].sym == nil {
+			ns.parts[n-1] = StrV{s: ns.parts[n-1].s + x.s}
+			return
+		}
+		ns.parts = append(ns.parts, x)
 	}
-	// content unknown
-	return StrV{sym: newSymStr(symOpaque)}
+	add(a)
+	add(b)
+	return StrV{sym: ns}
 }
 
 // asBytes views a string as a sequence of byte terms when its length is concrete.
@@ -217,6 +294,23 @@ func (ex *Exec) asBytes(s StrV) ([]*Term, bool) {
 	}
 	if s.sym.kind == symBytes {
 		return s.sym.bytes, true
+	}
+	if s.sym.kind == symConcat {
+		if s.sym.lowered == nil {
+			ns := newSymStr(symBytes)
+			for _, p := range s.sym.parts {
+				if p.sym != nil && p.sym.kind == symUniverse {
+					p = StrV{s: ex.concStr(p, "bytes of a universe string inside a concatenation")}
+				}
+				pb, ok := ex.asBytes(p)
+				if !ok {
+					return nil, false
+				}
+				ns.bytes = append(ns.bytes, pb...)
+			}
+			s.sym.lowered = ns
+		}
+		return s.sym.lowered.bytes, true
 	}
 	if s.sym.kind == symDec {
 		// decimal rendering: fork on the digit count once per string (memoised), digits become byte variables
@@ -379,4 +473,21 @@ func (ex *Exec) lowerDec(s StrV) StrV {
 	ex.assume(tEq(sum, v))
 	ns.bytes = append(ns.bytes, digs...)
 	return StrV{sym: ns}
+}
+
+// byteForm turns ropes and decimal renderings into byte-level strings (forking on digit counts as needed); other
+// strings are returned unchanged.
+func (ex *Exec) byteForm(s StrV) StrV {
+	if s.sym == nil {
+		return s
+	}
+	switch s.sym.kind {
+	case symConcat, symDec:
+		if bs, ok := ex.asBytes(s); ok {
+			ns := newSymStr(symBytes)
+			ns.bytes = bs
+			return ex.normBytes(ns)
+		}
+	}
+	return s
 }
